@@ -20,7 +20,7 @@ import numpy as np
 import core
 import gen
 
-PROOF_MODULES = ["UnytProofs.C18", "UnytProofs.C18Equiv", "UnytProofs.C18Reuse"]
+PROOF_MODULES = ["UnytProofs.C18", "UnytProofs.C18Equiv", "UnytProofs.C18Order", "UnytProofs.C18Reuse"]
 HARNESS = os.path.dirname(os.path.abspath(__file__))
 PLUGINS = ("c18",)
 # tables of other properties this model reads: refreshed best-effort (their own checks own them; a
@@ -311,6 +311,95 @@ def conversion_wire(spec):
     return None
 
 
+COPY_METHOD = {"to": "unyt_array.to", "in_units": "unyt_array.in_units", "to_value": "unyt_array.to_value",
+               "in_base": "unyt_array.in_base", "in_cgs": "unyt_array.in_cgs", "in_mks": "unyt_array.in_mks",
+               "to_equivalent": "unyt_array.to_equivalent", "copy": "unyt_array.copy", "value": "unyt_array.value",
+               "v": "unyt_array.v", "to_ndarray": "unyt_array.to_ndarray", "pos": "unyt_array.__pos__",
+               "getitem": "unyt_array.__getitem__", "unit_quantity": "unyt_array.unit_quantity",
+               "unit_array": "unyt_array.unit_array", "str": "unyt_array.__str__", "repr": "unyt_array.__repr__",
+               "units.get_base_equivalent": "Unit.get_base_equivalent", "units.get_cgs_equivalent": "Unit.get_cgs_equivalent",
+               "units.get_mks_equivalent": "Unit.get_mks_equivalent", "units.as_coeff_unit": "Unit.as_coeff_unit",
+               "units.mul": "Unit.__mul__", "units.div": "Unit.__truediv__", "units.pow": "Unit.__pow__",
+               "units.copy": "Unit.copy", "units.eq": "Unit.__eq__", "units.get_conversion_factor": "Unit.get_conversion_factor",
+               "units.same_dimensions_as": "Unit.same_dimensions_as"}
+
+
+def copy_wire(spec):
+    """the model line for a COPYING spec: the route's fallible steps plus the self-writes the regenerated
+    source facts attribute to the method (`copyingRoute`); (line, compare outcome?)"""
+    import unyt
+
+    r = spec["route"]
+    try:
+        u = unyt.Unit(spec["unit"])
+        dt = np.dtype(spec["dtype"])
+        if r == "units.simplify":
+            return "\t".join(["c18.simplify"] + _uw(u)), True
+        meth = COPY_METHOD.get(r)
+        if meth is None or dt.kind not in "iufcb":
+            return None, False
+        if spec.get("kwargs") and "bogus" in spec["kwargs"]:
+            return "\t".join(["c18.copy.method", meth]), False
+
+        def tgt():
+            try:
+                t = unyt.Unit(spec["target"])
+            except Exception as e:  # noqa: BLE001
+                n = L.exc_class(e)
+                return ["E", n if n in ("UnitParseError", "TypeError", "ValueError", "KeyError") else "Other"]
+            return ["U"] + _uw(t)
+
+        head = _uw(u) + [dt.kind, str(dt.itemsize)]
+        if r in ("to", "in_units", "to_value", "to_equivalent") and spec.get("equivalence") is not None:
+            return "\t".join(["c18.copy.to_equivalent", meth] + head + tgt() + [spec["equivalence"],
+                                                                                 ",".join(sorted(spec.get("kwargs") or {}))]), True
+        if r in ("to", "in_units", "to_value"):
+            return "\t".join(["c18.copy.in_units", meth] + head + tgt()), True
+        if r in ("in_base", "in_cgs", "in_mks"):
+            sys_ = spec.get("system", "mks") if r == "in_base" else r[3:]
+            if sys_ == "nope":
+                return "\t".join(["c18.copy.method", meth]), False
+            return "\t".join(["c18.copy.in_base", meth, sys_] + _uw(u)), True
+        return "\t".join(["c18.copy.method", meth]), False
+    except ValueError:
+        return None, False
+
+
+def compare_copy(chk, spec, obs, rep, outcome):
+    """copying routes: the model's effect list on the input is the regenerated self-write closure of the
+    method; it must be empty exactly when the input is observed unchanged, and (for the modelled
+    conversion routes) the exception class must agree"""
+    if not rep or rep[0] == "bad-op" or len(rep) < 2:
+        chk.disagree("c18.copy", f"model rejected {spec}: {rep}")
+        return
+    tag = f"{spec['route']}|{spec.get('fault')}|{spec['dtype']}|{spec['shape']}|{spec['unit']}->{spec.get('target', spec.get('system'))}"
+    if spec["route"] == "units.simplify":
+        m_exc = None if rep[0] == "ok" else rep[0].split(":", 1)[1]
+        m_eff = int(rep[1])
+        m_self = rep[2] == "1" if m_exc is None else False
+        changed = bool(obs["unit_obj_delta"])
+        if (m_exc is None) != (obs["exc"] is None):
+            chk.disagree("c18.simplify.outcome", f"{tag}: model {m_exc} vs unyt {obs['exc']}", spec)
+        elif m_exc is None:
+            if m_self != bool(obs["returned_self"]):
+                chk.disagree("c18.simplify.self", f"{tag}: model returns self={m_self}, unyt {obs['returned_self']}", spec)
+            if changed and m_eff == 0:
+                chk.disagree("c18.simplify.effects", f"{tag}: the unit object changed, the model lists no write", spec)
+        return
+    m_exc = None if rep[0] == "ok" else rep[0].split(":", 1)[1]
+    m_eff = int(rep[1])
+    o_n = {"RecursionError": "RuntimeError", "IndexError": "Other", "AttributeError": "Other"}.get(obs["exc"], obs["exc"])
+    if outcome and ((m_exc is None) != (o_n is None) or (m_exc is not None and m_exc != o_n
+                                                         and not (m_exc == "Other" and o_n not in core_model_errs()))):
+        chk.disagree("c18.copy.outcome", f"{tag}: model {m_exc} vs unyt {obs['exc']} ({obs['msg'][:60]})", spec)
+        return
+    changed = bool(obs["delta"]) or bool(obs["unit_obj_delta"])
+    if changed and m_eff == 0:
+        chk.disagree("c18.copy.effects", f"{tag}: the input changed ({obs['delta']}), the regenerated source facts list no write to self", spec)
+    if m_eff > 0 and not changed and m_exc is None and obs["exc"] is None:
+        chk.disagree("c18.copy.effects", f"{tag}: the source facts list {m_eff} write(s) to self, the input is unchanged", spec)
+
+
 def compare_conversion(chk, spec, obs, rep):
     """model prediction (run line) vs observation"""
     op = rep and rep[0]
@@ -418,11 +507,22 @@ def run_conversions(chk, M, tier):
             w = conversion_wire(sp)
             if w is not None:
                 lines.append(w)
-                idx.append(len(results) - 1)
+                idx.append((len(results) - 1, None))
+        elif sp["route"] in V.COPYING:
+            w, outcome = copy_wire(sp)
+            if w is not None:
+                lines.append(w)
+                idx.append((len(results) - 1, outcome))
     reps = M.ask(lines)
-    for i, rep in zip(idx, reps):
-        compare_conversion(chk, specs[i], results[i], rep)
-    chk.count("conv:model-lines", len(lines))
+    ncopy = 0
+    for (i, outcome), rep in zip(idx, reps):
+        if outcome is None:
+            compare_conversion(chk, specs[i], results[i], rep)
+        else:
+            ncopy += 1
+            compare_copy(chk, specs[i], results[i], rep, outcome)
+    chk.count("conv:model-lines", len(lines) - ncopy)
+    chk.count("conv:copy-model-lines", ncopy)
 
 
 # ----------------------------------------------------------------------------------------------
@@ -544,6 +644,18 @@ def ufunc_specs(tier, rng):
                     specs.append(dict(sp, out_dtype="int64", fault="int-out"))
                     specs.append(dict(sp, out_dtype="int8", fault="narrow-int-out"))
                     specs.append(dict(sp, out_ro=True, fault="readonly"))
+    # the regions `ufuncGuard` excludes besides offset operands and failing unary rules: a tuple of
+    # outputs (plain ndarrays / unyt arrays) and a call without any unyt_array among its inputs
+    extra = []
+    for name, nin, nout, rule in rows:
+        if nout > 1 and getattr(np, name, None) is not None:
+            a = _un("m") if name != "frexp" else _un("dimensionless")
+            for form in ("out-tuple-bare", "out-tuple-unyt"):
+                extra.append(dict(ufunc=name, form=form, a=a, b=(_un("m") if nin == 2 else None), fault="tuple-out", rule=rule, nin=nin, keep=True))
+        if nin == 2 and name in ("add", "subtract", "multiply", "divide", "maximum", "less", "arctan2"):
+            for form in ("out-other",):
+                extra.append(dict(ufunc=name, form=form, a=dict(kind="bare", dtype="float64"), b=dict(kind="bare", dtype="float64"),
+                                  fault="plain-inputs", rule=rule, nin=nin, keep=True))
     if tier != "thorough":
         keep, seen = [], {}
         for sp in specs:
@@ -554,7 +666,7 @@ def ufunc_specs(tier, rng):
             elif seen[k] <= 1 or rng.random() < 0.12:
                 keep.append(sp)
         specs = keep
-    return specs
+    return specs + extra
 
 
 # the unit rules the shared dispatcher model knows (`Ufunc.Rule.ofName`); a rule function added to unyt
@@ -570,7 +682,7 @@ def ufunc_wire(E, sp):
     import unyt
 
     tgt = U.target_of(sp)
-    if tgt is None or (sp.get("kwargs") and "bogus" in sp["kwargs"]):
+    if tgt is None or (sp.get("kwargs") and "bogus" in sp["kwargs"]) or sp["form"].startswith("out-tuple"):
         return None
     if sp["rule"] not in MODELLED_RULES:
         return "skip:rule-not-in-shared-dispatcher-model"
@@ -741,6 +853,16 @@ WITNESSES = [
      dict(ufunc="add", form="out-self", a=_un("m", "int64"), b=_un("cm", "int64", shape="bad"), fault="bad-shape",
           rule="_preserve_units", nin=2),
      "ufunc|out=|int-retyped-on-failure", False),
+    ("plain_inputs_counterexample", "ufunc",
+     dict(ufunc="add", form="out-other", a=dict(kind="bare", dtype="float64"), b=dict(kind="bare", dtype="float64"),
+          fault="plain-inputs", rule="_preserve_units", nin=2),
+     "ufunc|any-rule|out=|plain-inputs|raised-TypeError|numbers", False),
+    ("tuple_out_counterexample", "ufunc",
+     dict(ufunc="modf", form="out-tuple-bare", a=_un("m"), b=None, fault="tuple-out", rule="_passthrough_unit", nin=1),
+     "ufunc|any-rule|out=|tuple-out|raised-AttributeError|numbers", False),
+    ("unary_rule_failure_counterexample", "ufunc",
+     dict(ufunc="sqrt", form="out-self", a=_un("degC"), b=None, fault="offset-operand", rule="_sqrt_unit", nin=1),
+     "ufunc|_sqrt_unit|out=|offset-operand|raised-InvalidUnitOperation|numbers", False),
     # fixed by 5bfd46b (C01-04): a refusal by the unit checks leaves an integer out= alone
     ("unit_refusal_leaves_integer_out_alone", "ufunc",
      dict(ufunc="add", form="out-self", a=_un("m", "int64"), b=_un("s", "int64"), fault="incommensurable", rule="_preserve_units", nin=2),
